@@ -166,8 +166,13 @@ pub fn spans(text: &str) -> Vec<String> {
             if let Some(h) = f[4].strip_prefix('s') {
                 if let Some(b) = crate::util::unhex(h) {
                     if let Ok(s) = String::from_utf8(b) {
+                        // the readers parse the trimmed text of token-valued leaves
+                        let t = s.trim().to_string();
                         if !out.contains(&s) {
                             out.push(s);
+                        }
+                        if !out.contains(&t) {
+                            out.push(t);
                         }
                     }
                 }
